@@ -34,7 +34,7 @@ def plan(tier, seed):
     for r in range(n):
         big = tier == 'thorough' and r % 10 == 0
         cases.append(dict(lane='planted', aligner='greedy', metric=pick(['cos', 'euclidean']), K=int(rng.integers(2, 5)),
-                          F=int(pick([9, 17, 33, 65, 129] + ([257, 513] if big else []))), T=int(rng.integers(8, 60)), rs=[seed, 17, i])); i += 1
+                          F=int(pick([9, 17, 33, 65, 129, 257, 513] + ([257, 513] if big else []))), T=int(rng.integers(8, 60)), rs=[seed, 17, i])); i += 1     # (the whole stated range of F in both tiers: the adjacent-bin chain is cheap)
     for r in range(n):
         which = pick(['default512', 'custom', 'custom', 'custom']) if not (tier == 'thorough' and r % 15 == 0) else 'default1024'
         F = {'default512': 257, 'default1024': 513}.get(which, int(pick([9, 17, 33, 65, 129])))
